@@ -219,5 +219,17 @@ func verifHarness_C20_wrappers() {
 	verifAssert(same, "the first listed wrapper is outermost; wrapped http.Handlers run in chain order and obey abort like native handlers")
 	verifAssert(gotW == ctxResp && gotR == ctxReq, "a wrapped http.Handler receives the context's writer and request")
 	verifAssert(mainRan == !abort, "abort stops wrapped and native handlers alike")
+	// a rux.HandlerFunc used directly as an http.Handler gets a context bound to the writer and request
+	var directResp http.ResponseWriter
+	var directReq *http.Request
+	rec2 := verifNewWriter()
+	req2 := verifRequest("GET", "/y")
+	rux.HandlerFunc(func(c *rux.Context) {
+		directResp, directReq = c.RawWriter(), c.Req
+		c.SetStatus(202)
+		c.WriteString("d")
+	}).ServeHTTP(rec2, req2)
+	verifAssert(directResp == http.ResponseWriter(rec2) && directReq == req2, "HandlerFunc.ServeHTTP binds the context to the given writer and request")
+	verifAssert(rec2.whCalls == 1 && rec2.whStatus == 202 && string(rec2.body) == "d", "its response reaches the given writer")
 	verifCover("C20 wrappers")
 }
